@@ -50,6 +50,18 @@ impl WriteBatch {
         });
     }
 
+    fn retain_last_write_per_key(&mut self) {
+        let mut seen = std::collections::HashSet::new();
+        let mut entries = Vec::with_capacity(self.entries.len());
+        for entry in self.entries.drain(..).rev() {
+            if seen.insert(entry.key.clone()) {
+                entries.push(entry);
+            }
+        }
+        entries.reverse();
+        self.entries = entries;
+    }
+
     fn _put(&mut self, key: &[u8], timestamp: u64, value: &[u8]) {
         self.entries.push(KeyValuePair {
             key: key.into(),
@@ -338,6 +350,9 @@ impl KeyValueStore {
     }
 
     pub fn write(&self, mut batch: WriteBatch) -> Result<(), SError> {
+        // Every entry of a batch gets the same timestamp, so only the last write to a key can take
+        // effect.  The log, the memtable and log replay all require distinct (key, timestamp) pairs.
+        batch.retain_last_write_per_key();
         let (mut wait_guard, memtable, log, seq_no) = {
             let mut state = self.state.lock().unwrap();
             let wait_guard = self.wait_list.link(());
